@@ -116,6 +116,10 @@ cdef class LegacyRecordBatch:
             unsigned long crc = 0
             char * buf
 
+        if self._decompressed:
+            # The buffer now holds the decompressed payload, not the message
+            return self._decompressed == 1
+
         buf = <char*> self._buffer.buf
         cutil.calc_crc32(
             0,
@@ -253,8 +257,12 @@ cdef class LegacyRecordBatch:
         if compression:
             # In case we will call iter again
             if not self._decompressed:
+                # `_decompress()` replaces the buffer by the inner message set:
+                # remember the verdict on the wrapper's checksum (1 valid,
+                # 2 invalid) so that `validate_crc()` can still answer
+                crc_valid = self.validate_crc()
                 self._decompress(compression)
-                self._decompressed = True
+                self._decompressed = 1 if crc_valid else 2
 
             # If relative offset is used, we need to decompress the entire
             # message first to compute the absolute offset.
